@@ -83,6 +83,8 @@ struct Sh {
     consumed: Vec<Vec<AtomicUsize>>,
     started: Vec<AtomicBool>,
     ended: Vec<AtomicBool>,
+    gone: Vec<AtomicBool>,      // the arm's EventSender has been dropped: its last access to the cqueue is over (cq mode)
+    track_gone: AtomicBool,
     added: AtomicUsize,
     frame_alive: AtomicBool,
     arm_panics: AtomicUsize,    // user panics raised by arms
@@ -249,7 +251,22 @@ fn check_event(sh: &Arc<Sh>, i: usize, round: usize) {
 }
 
 fn all_ended(sh: &Arc<Sh>) -> Option<usize> {
-    (0..sh.added.load(SeqCst)).find(|&i| !sh.ended[i].load(SeqCst))
+    let tg = sh.track_gone.load(SeqCst);
+    (0..sh.added.load(SeqCst)).find(|&i| !sh.ended[i].load(SeqCst) || (tg && !sh.gone[i].load(SeqCst)))
+}
+
+/// owned by the ENVIRONMENT of the arm's closure (not by its body): dropped after the EventSender parameter, i.e. after
+/// EventSender::drop has pushed the Done event, decremented cnt and woken the poller - the arm's last access to the cqueue
+struct GoneGuard(Arc<Sh>, usize);
+impl Drop for GoneGuard {
+    fn drop(&mut self) {
+        let c = mayv::ctx();
+        if !self.0.frame_alive.load(SeqCst) {
+            c.fail(format!("arm {} was still inside EventSender::drop (using the cqueue) after the owner's frame was gone", self.1));
+        }
+        self.0.gone[self.1].store(true, SeqCst);
+        c.log("arm.gone", self.1 as u64, 0, None);
+    }
 }
 
 struct FrameGuard(Arc<Sh>, &'static str);
@@ -290,7 +307,10 @@ fn cq_owner(sh: &Arc<Sh>, seed: u64) {
                 let aseed = r.next();
                 c.log("cq.add", i as u64, 0, None);
                 sh.added.fetch_add(1, SeqCst);
+                sh.track_gone.store(true, SeqCst);
+                let gone = GoneGuard(sh.clone(), i);
                 let s = may::go!(cq, i, move |es: may::cqueue::EventSender| {
+                    let _still_in_env = &gone;
                     let c = mayv::ctx();
                     c.log("arm.start", i as u64, may::verif::current_co_id(), None);
                     let mut r = Rng::new(aseed);
@@ -644,6 +664,8 @@ fn main() {
             consumed: (0..n).map(|_| (0..MAXR).map(|_| AtomicUsize::new(0)).collect()).collect(),
             started: (0..n).map(|_| AtomicBool::new(false)).collect(),
             ended: (0..n).map(|_| AtomicBool::new(false)).collect(),
+            gone: (0..n).map(|_| AtomicBool::new(false)).collect(),
+            track_gone: AtomicBool::new(false),
             added: AtomicUsize::new(0),
             frame_alive: AtomicBool::new(true),
             arm_panics: AtomicUsize::new(0),
